@@ -26,7 +26,8 @@ func init() {
 		Rule: "cases: ver = tbls.Verify of one entry (valid shares; EVERY single-bit modification of a valid 66-byte share; message and commitment modified; junk catalogue), " +
 			"blsver = bls.Verify of a plain signature (valid, every bit of it flipped, wrong key, wrong message), " +
 			"rec = tbls.Recover with k valid distinct members for EVERY subset of size < t of all 1<=t<=n<=8 (exhaustive) and sampled k<t up to n=32, padded with replays in other encodings, " +
-			"re-indexed, out-of-range, other-message and foreign-polynomial entries; non-trivial = every case; distinct = distinct case line",
+			"re-indexed, out-of-range, other-message and foreign-polynomial entries, large groups (n up to 300, member indices around 64 and 256) below threshold with re-encoded replays; " +
+			"hist = call sequences sharing a mutable message buffer (m1 shares/signatures offered again after the buffer was overwritten with m2); non-trivial = every case; distinct = distinct case line",
 		Gen:        gen,
 		Exec:       exec,
 		Exhaustive: func(tier string) bool { return true },
@@ -72,7 +73,7 @@ func execLine(line string) (res h.Result) {
 	w := strings.Fields(line)
 	res.Nontrivial = true
 	switch w[0] {
-	case "rec":
+	case "rec", "hist":
 		res = c02.ExecLine(line)
 		res.Nontrivial = true
 	case "ver": // ver <h> <pubcoeffs> <msg> <sig>
@@ -331,6 +332,22 @@ func gen(tier string, rng *h.Rng, emit0 func(string)) {
 			es = sh
 		}
 		emit(recLine(t, n, coeffs, msgTok, es))
+	}
+	// 3c. large groups (n up to 300, members around index 64 / 256) below threshold with re-encoded replays
+	nlg := 90
+	if thorough {
+		nlg = 900
+	}
+	for k := 0; k < nlg; k++ {
+		emit(c02.LargeGroup(rng, k%4 == 0))
+	}
+	// 3d. histories sharing a mutable message buffer: nothing made for m1 counts for m2
+	nh := 32
+	if thorough {
+		nh = 300
+	}
+	for k := 0; k < nh; k++ {
+		emit(c02.History(rng, k))
 	}
 	// 4. k = t-1 valid members and a long tail of junk, larger n
 	nl := 60
